@@ -58,3 +58,56 @@ package actor
 //@   modifies ReceiveContext.err
 
 //@ structural writers router.roundRobinNext: (*router).routeByStrategy
+
+// ---------------------------------------------------------------------------
+//@ property C14
+//@ load sync/atomic
+
+// The behavior stack is a linked list of immutable nodes reachable from top;
+// its callers hold the actor's fieldsLocker, so the CAS retry loops are
+// verified in their sequential reading (the retry branch is dead).
+
+//@ func (*behaviorStack).Push(bs, behavior)
+//@   loop 1 invariant entry-state: bs.top == old(bs.top) && bs.length == old(bs.length) && node.value == behavior
+//@   loop 1 invariant rest-untouched: old_objects_unchanged((*bnode)(bs.top))
+//@   ensures counts: old(bs.length) < 18446744073709551615 ==> bs.length == old(bs.length) + 1
+//@   ensures pushes: fresh((*bnode)(bs.top)) && (*bnode)(bs.top).value == behavior && (*bnode)(bs.top).next == old(bs.top)
+//@   ensures rest-untouched: old_objects_unchanged((*bnode)(bs.top))
+//@   modifies behaviorStack.top, behaviorStack.length, cell(unsafe.Pointer)
+
+//@ func (*behaviorStack).Pop(bs)
+//@   loop 1 invariant entry-state: bs.top == old(bs.top) && bs.length == old(bs.length)
+//@   ensures empty-stays-empty: old(bs.top) == nil ==> result == nil && bs.top == nil && bs.length == old(bs.length)
+//@   ensures pops-top: old(bs.top) != nil ==> result == old((*bnode)(bs.top).value) && bs.top == old((*bnode)(bs.top).next)
+//@   ensures counts: old(bs.top) != nil && old(bs.length) >= 1 ==> bs.length == old(bs.length) - 1
+//@   modifies behaviorStack.top, behaviorStack.length, cell(unsafe.Pointer)
+
+//@ func (*behaviorStack).Reset(bs)
+//@   ensures emptied: bs.top == nil && bs.length == 0
+//@   modifies behaviorStack.top, behaviorStack.length, cell(unsafe.Pointer)
+
+//@ func (*behaviorStack).Peek(bs)
+//@   ensures top-or-nil: (bs.top == nil ==> result == nil) && (bs.top != nil ==> result == (*bnode)(bs.top).value)
+//@   modifies nothing
+
+// Become: exactly the new behavior remains.
+//@ func (*PID).setBehavior(pid, behavior)
+//@   requires pid.behaviorStack != nil
+//@   ensures replaces-all: pid.behaviorStack.length == 1 && (*bnode)(pid.behaviorStack.top).value == behavior && (*bnode)(pid.behaviorStack.top).next == nil
+
+// UnBecome: only the default behavior remains, stacked ones are cleared.
+//@ func (*PID).resetBehavior(pid)
+//@   requires pid.behaviorStack != nil
+//@   ensures only-default-remains: pid.behaviorStack.length == 1 && pid.behaviorStack.top != nil && (*bnode)(pid.behaviorStack.top).next == nil
+
+// BecomeStacked pushes, UnBecomeStacked pops.
+//@ func (*PID).setBehaviorStacked(pid, behavior)
+//@   requires pid.behaviorStack != nil
+//@   ensures counts: old(pid.behaviorStack.length) < 18446744073709551615 ==> pid.behaviorStack.length == old(pid.behaviorStack.length) + 1
+//@   ensures pushes: (*bnode)(pid.behaviorStack.top).value == behavior && (*bnode)(pid.behaviorStack.top).next == old(pid.behaviorStack.top)
+
+//@ func (*PID).unsetBehaviorStacked(pid)
+//@   requires pid.behaviorStack != nil
+//@   ensures pops: old(pid.behaviorStack.top) != nil ==> pid.behaviorStack.top == old((*bnode)(pid.behaviorStack.top).next)
+//@   ensures counts: old(pid.behaviorStack.top) != nil && old(pid.behaviorStack.length) >= 1 ==> pid.behaviorStack.length == old(pid.behaviorStack.length) - 1
+//@   ensures empty-stays-empty: old(pid.behaviorStack.top) == nil ==> pid.behaviorStack.top == nil && pid.behaviorStack.length == old(pid.behaviorStack.length)
